@@ -2,9 +2,56 @@
   EG.Driver.Ellipse — model side of the `ellipse.*` correspondence streams (harness/src/m_ellipse.rs).
 -/
 import EG.Driver.Util
+import EG.Model.Ellipse
 namespace EG.Driver
 open EG
 
-def handleEllipse (_stream : String) (_t : Toks) : Option String := none
+private def alignOfE : Nat → StrokeAlignment | 0 => .inside | 1 => .center | _ => .outside
+
+private def parseColE (s : String) : Option Color := if s == "-" then none else some (parseNat s)
+
+private def fmtEllipse (e : Ellipse) : String := s!"{e.tl.x},{e.tl.y},{e.size.w},{e.size.h}"
+
+private def fmtCallE : Call → String
+  | .drawIter px => "di:" ++ fmtPix px
+  | .fillContiguous a cs => s!"fc:{fmtRect a}:{fmtNats cs}"
+  | .fillSolid a c => s!"fs:{fmtRect a}:{c}"
+  | .clear c => s!"cl:{c}"
+
+private def fmtLogE (cs : List Call) : String := joinOr "|" (cs.map fmtCallE)
+
+def handleEllipse (stream : String) (t : Toks) : Option String :=
+  match stream with
+  | "ellipse.points" =>
+    let (tl, t) := t.pt
+    let (sz, _) := t.sz
+    let e : Ellipse := ⟨tl, sz⟩
+    let ys := irange (tl.y - 3) (tl.y + sz.h + 3)
+    let xs := irange (tl.x - 3) (tl.x + sz.w + 3)
+    let bits := ys.flatMap (fun y => xs.map (fun x => e.contains ⟨x, y⟩))
+    some s!"bb={fmtRect e.boundingBox} c={fmtPt e.center} pts={fmtPts e.points} in={fmtBits bits}"
+  | "ellipse.areas" =>
+    let (tl, t) := t.pt
+    let (sz, t) := t.sz
+    let (w, t) := t.nat
+    let (a, _) := t.nat
+    let e : Ellipse := ⟨tl, sz⟩
+    let st : PrimStyle := ⟨none, some 9, w, alignOfE a⟩
+    some s!"s={fmtEllipse (e.strokeArea st)} f={fmtEllipse (e.fillArea st)} sbb={fmtRect (e.styledBoundingBox st)}"
+  | "ellipse.styled" =>
+    let (tl, t) := t.pt
+    let (sz, t) := t.sz
+    let (f, t) := t.str
+    let (s, t) := t.str
+    let (w, t) := t.nat
+    let (a, t) := t.nat
+    let (B, _) := t.rect
+    let e : Ellipse := ⟨tl, sz⟩
+    let st : PrimStyle := ⟨parseColE f, parseColE s, w, alignOfE a⟩
+    let calls := e.drawStyled st
+    let m1 := canonPix (calls.flatMap (Call.writesDefault B))
+    let m2 := canonPix (calls.flatMap (Call.writesNative B))
+    some s!"log={fmtLogE calls} m1={fmtPix m1} m2={fmtPix m2} px={fmtPix (e.styledPixels st)}"
+  | _ => none
 
 end EG.Driver
